@@ -659,3 +659,7 @@ def replay(run, data) -> None:
         law_constructions(run, sub_rng(run.seed, 'alg', case['id']), 'replay', case['id'])
     run.case(case, True, sample=case, tag='replay')
     run.case('pad', True)
+
+
+# (kept at the end of the file so that the text above stays the description the check was first built to)
+RULE += ' ' + 'Later additions: results of every product are edited in place and both operands re-checked; operand laws also on identity / single-axis / nearly-zero rotations and on integer operands; from_pitch/yaw/roll, from_angstr, to_matrix, Vec.rotate / rotate_by_str / localise / transform and Angle.transform against the model; conversion laws on products, copies, pickles and frozen twins.'
